@@ -363,6 +363,7 @@ func genC12(c *Ctx) {
 	c.Rep.Rule = "for SMP messages 1, 1Q, 2, 3, 4: every MPI field replaced by a boundary value (0, 1, p-1, p, p+1, q, random, +1) or MPIs dropped, sent through the authentic session; out-of-sequence and duplicated messages; user calls (start, answer, abort) in every SMP state; v2 and v3; each step compared with the symbolic SMP model; oracle: no Success on the receiver of a deviant message, no panic, and a fresh honest run with equal secrets succeeds afterwards"
 	smpRestarts(c)
 	smpDeviantAborts(c)
+	tlvsBehindDisconnect(c)
 	n := 8
 	if c.Thorough() {
 		n = 200
